@@ -3,6 +3,7 @@ import AdfObdd.Drv.Parser
 import AdfObdd.CliModes
 import AdfObdd.CliWorld
 import AdfObdd.CliCounter
+import AdfObdd.CliIO
 /-! `clirun` with the TEXT of the input file: the model's answer is `CliM.runText CliM.drvWorld`
     (`CliModes.lean`: the three arms of `bin/src/main.rs` as written, from the text to exit status and
     stdout) on the concrete world `CliM.drvWorld` (`CliWorld.lean`: tagged truth-table library,
@@ -87,6 +88,31 @@ def cliRunText (a : AdfSt) (mode sort flags heu : String) (perm order : List Nat
     let printed := secs.flatMap (fun (_, vs) => vs.map fun v => hexOfLine (render names v))
     (s!"exit=0 wellformed=1 lines={orDashC (canonSeq lines)} printed={orDashC (canonSeq printed)}", cliSpecLine a m f)
 
+/-- the entries of `l` are exactly those of the map `m`: no key twice, as many as `m` has, each found -/
+def sameAsMap {α β : Type} [BEq α] [Hashable α] [BEq β] (l : List (α × β)) (m : Std.HashMap α β) : Bool :=
+  (Std.HashMap.ofList l).size == l.length && l.length == m.size && l.all fun kv => m[kv.1]? == some kv.2
+
+/-- `cliexportfile <text> <json>`: the input TEXT of a `cliexport` request and the REAL file the binary wrote
+for `--lib naive --export`. (i) `Json.parse` (the verified reader) on the file; (ii) the parsed state against
+the object the text-level model's naive arm builds from the text (`CliM.parsedObj`): names, `mapping` as a
+map, node list, `ac`, unique table as a map; (iii) `file`: the model run WITH `--export x` on an empty file
+system (`CliM.runTextIO`), the two hash maps iterated in the orders found in the real file, must leave
+exactly the real file's text under `x`, byte for byte; (iv) `import`: the model's `--import` arm on the
+real file prints what the model's direct run prints (`--grd --com --stm`, as the harness compares the
+binary's two runs). -/
+def cliExportFile (text jtext : List Char) : String :=
+  let b := fun (x : Bool) => if x then "1" else "0"
+  let inv0 : Inv := ⟨.naive, {}, .none, .simple⟩
+  let inv3 : Inv := ⟨.naive, { grd := true, com := true, stm := true }, .none, .simple⟩
+  match Json.parse jtext, parsedObj drvWorld inv0 text with
+  | none, _ => "parsed=0"
+  | some _, none => "parsed=1 model-rejects-text"
+  | some e, some o =>
+    let r := runTextIO drvWorld 1000000 ⟨inv0, some ['x'], false⟩ ⟨e.mapping, e.cache⟩ text []
+    let imp := runFileIO drvWorld 1000000 ⟨inv3, none, true⟩ ⟨[], []⟩ ['x'] [(['x'], jtext)]
+    let direct := runText drvWorld 1000000 inv3 text
+    s!"parsed=1 names={b (e.names == o.names.map String.ofList)} mapping={b (sameAsMap e.mapping o.mapping)} nodes={b (e.nodes == o.store.nodes.toList)} ac={b (e.ac == o.ac)} cache={b (sameAsMap e.cache o.store.uniq)} file={b (r.fs == [(['x'], jtext)] && r.out.exit == 0 && !r.refused)} import={b (imp.out == direct && direct.exit == 0 && imp.fs == [(['x'], jtext)])}"
+
 def cliTextStep (a : AdfSt) (l : String) (ws : List String) : Option (List String) :=
   match ws with
   | ["clirun", mode, sort, flags, heu, perm, order, labels, text] =>
@@ -113,6 +139,11 @@ def cliTextStep (a : AdfSt) (l : String) (ws : List String) : Option (List Strin
   -- `clicounter <mode> <sort> <flags> <nai|mem|other|-> <zeromemo> <text>`: the model of `--counter`
   -- (`CliM.runTextC`; zeromemo = 1: features `adhoccounting` without `adhoccountmodels`, the default);
   -- not emitted by the harness generator yet (cross-checked against the binary by a script)
+  -- `cliexportfile <text> <json>` (emitted by the harness after the `~` line of a `cliexport` request)
+  | ["cliexportfile", text, json] =>
+    match Prs.unhexText text, Prs.unhexText json with
+    | some text, some jtext => some [l, s!"= {cliExportFile text jtext}"]
+    | _, _ => some [l, "= bad-request"]
   | ["clicounter", mode, sort, flags, counter, zm, text] =>
     match Prs.unhexText text with
     | some text =>
